@@ -3647,3 +3647,56 @@ Proof.
   rewrite Ed in C. destruct (filter f l) as [|v t]; [exact C|].
   destruct C as (ms' & E & _). exists ms'. exact E.
 Qed.
+
+(* ---------- a LINQ law between the two nested column kinds: SelectMany = concatenation of the 2-D column ---------- *)
+Lemma vec_loop_acc (ev : event) (ty : string) (body : bexp) (ps : guard) (l : list value) : forall acc,
+  vec_loop ev ty body ps l acc = rdo vs <- vec_loop ev ty body ps l []; ROk (acc ++ vs).
+Proof.
+  induction l as [|v r IH]; intro acc; cbn [vec_loop].
+  - cbn [rbind]. rewrite app_nil_r. reflexivity.
+  - destruct (gpasses ev v ps) as [b|f|k]; cbn [rbind]; try reflexivity.
+    destruct b; [|apply IH].
+    destruct (db ev v body) as [x|f|k]; cbn [rbind]; try reflexivity.
+    rewrite (IH (acc ++ [conv ty x])), (IH ([] ++ [conv ty x])).
+    destruct (vec_loop ev ty body ps r []) as [vs|f|k]; cbn [rbind]; try reflexivity.
+    rewrite <- app_assoc. reflexivity.
+Qed.
+Definition unvec (v : value) : list value := match v with VVec l => l | _ => [] end.
+Lemma flat_is_concat_of_vec2 (ev : event) (g1 : guard) (c2 : collref) (g2 : guard) (body : bexp) (l : list value) : forall acc2 acc vs,
+  vec2_loop ev g1 c2 g2 body l acc2 = ROk vs ->
+  flat_loop ev g1 c2 g2 body l acc = ROk (acc ++ List.concat (map unvec (skipn (List.length acc2) vs))).
+Proof.
+  induction l as [|v r IH]; intros acc2 acc vs H; cbn [vec2_loop flat_loop] in *.
+  - inversion H; subst. rewrite skipn_all. cbn [map List.concat]. rewrite app_nil_r. reflexivity.
+  - destruct (gpasses ev v g1) as [b|f|k]; cbn [rbind] in *; try discriminate.
+    destruct b; [|apply (IH acc2 acc vs H)].
+    unfold dvec_of in H.
+    destruct (assoc_ss (c_ctype c2, c_bank c2) (ev_colls ev)) as [cv|]; cbn [rbind] in H; try discriminate.
+    destruct cv as [z0|q0|b0|o0| |l2|s0|f0 a0| ]; cbn [rbind] in H; try discriminate.
+    destruct (vec_loop ev (btype body) body g2 l2 []) as [ws|f|k] eqn:Ew; cbn [rbind] in H; try discriminate.
+    rewrite (vec_loop_acc ev (btype body) body g2 l2 acc), Ew. cbn [rbind].
+    rewrite (IH (acc2 ++ [VVec ws]) (acc ++ ws) vs H).
+    (* vs = acc2 ++ VVec ws :: rest: skipping |acc2| leaves VVec ws :: what skipping |acc2|+1 leaves *)
+    assert (Hpre : exists rest, vs = (acc2 ++ [VVec ws]) ++ rest).
+    { clear - H. revert H. generalize (acc2 ++ [VVec ws]). induction r as [|w r' IHr]; intros a H; cbn [vec2_loop] in H.
+      - inversion H; subst. exists []. rewrite app_nil_r. reflexivity.
+      - destruct (gpasses ev w g1) as [b|f|k]; cbn [rbind] in H; try discriminate.
+        destruct b; [|apply (IHr a H)].
+        destruct (dvec_of ev c2 g2 body) as [x|f|k]; cbn [rbind] in H; try discriminate.
+        destruct (IHr _ H) as (rest & ->). exists (x :: rest). rewrite <- app_assoc. reflexivity. }
+    destruct Hpre as (rest & ->).
+    rewrite (skipn_app (List.length (acc2 ++ [VVec ws])) (acc2 ++ [VVec ws]) rest), skipn_all, Nat.sub_diag. cbn [app skipn].
+    rewrite <- (app_assoc acc2 [VVec ws] rest).
+    rewrite (skipn_app (List.length acc2) acc2 ([VVec ws] ++ rest)), skipn_all, Nat.sub_diag.
+    cbn [app skipn map List.concat unvec]. rewrite <- app_assoc. reflexivity.
+Qed.
+(* whenever the 2-D column has a value, the flattened column (same collections, same filters, same body) is its concatenation *)
+Theorem flat_col_is_concat_of_vec2_col (ev : event) (c1 : collref) (g1 : guard) (c2 : collref) (g2 : guard) (body : bexp) (vs : list value) :
+  dcol ev (ColVec2 c1 g1 c2 g2 body) = ROk (VVec vs) ->
+  dcol ev (ColFlat c1 g1 c2 g2 body) = ROk (VVec (List.concat (map unvec vs))).
+Proof.
+  cbn [dcol]. destruct (assoc_ss (c_ctype c1, c_bank c1) (ev_colls ev)) as [cv|]; try discriminate.
+  destruct cv as [z0|q0|b0|o0| |l|s0|f0 a0| ]; try discriminate.
+  destruct (vec2_loop ev g1 c2 g2 body l []) as [ws|f|k] eqn:E; cbn [rbind]; try discriminate.
+  intro H. inversion H; subst. rewrite (flat_is_concat_of_vec2 ev g1 c2 g2 body l [] [] vs E). reflexivity.
+Qed.
